@@ -66,6 +66,9 @@ func c20eval(c c20Case) []ev.Finding {
 			sel.RewriteTimeFields()
 		case 2:
 			sel.OmitTime = true
+		case 4:
+			sel.RewriteTimeFields()
+			sel.OmitTime = true
 		case 3:
 			_ = sel.ColumnNames()
 			influxql.WalkFunc(sel.Fields, func(n influxql.Node) {
@@ -116,7 +119,7 @@ func c20eval(c c20Case) []ev.Finding {
 		}
 	}
 	// independent count from the generator's table (only valid when no field was removed by a rewrite)
-	if c.Mode != 1 {
+	if c.Mode != 1 && c.Mode != 4 {
 		n := 0
 		for _, f := range c.Fields {
 			n++
@@ -229,7 +232,7 @@ func c20run(r *ev.Run) {
 				x /= len(alpha)
 			}
 			for _, into := range []bool{false, true} {
-				for mode := 0; mode < 4; mode++ {
+				for mode := 0; mode < 5; mode++ {
 					run(c20Case{Fields: fs, Into: into, Mode: mode})
 				}
 			}
@@ -249,5 +252,5 @@ func c20run(r *ev.Run) {
 	r.Set("core_alphabet", len(c20core))
 	r.Set("max_len_full_alphabet", maxLen)
 	r.Set("max_len_core_alphabet", coreLen)
-	r.Rule = "every field list up to the stated lengths over the field alphabet x {no INTO, INTO} x {raw, after RewriteTimeFields, OmitTime}; state = (list, into, mode); non-trivial = at least two fields"
+	r.Rule = "every field list up to the stated lengths over the field alphabet x {no INTO, INTO} x {raw, after RewriteTimeFields, OmitTime, renamed in place after a first naming, RewriteTimeFields then OmitTime}; state = (list, into, mode); non-trivial = at least two fields"
 }
